@@ -1664,6 +1664,36 @@ func ruleRoOrder(c *Ctx) []Obligation {
 	} else {
 		obs = append(obs, bad(R, con, c.Pos(ro.Pos()), "the explicit case does not return the negated config value"))
 	}
+	// the top of the tree: a nil receiver (the parent of a root) is config true, i.e. not read-only
+	con = "above the root the default is config true: the nil receiver answers false"
+	decided := false
+	eachInstr(ro, func(in ssa.Instruction) {
+		r, isR := in.(*ssa.Return)
+		if !isR || len(r.Results) != 1 || decided {
+			return
+		}
+		for _, g := range guardsAt(r.Block()) {
+			x, isNil, okn := nilTest(g.Cond)
+			if !okn || !isParamN(ro, x, 0) || (isNil != g.Branch) {
+				continue
+			}
+			// innermost: the return sits on the nil side directly
+			if g.If.Block().Succs[map[bool]int{true: 0, false: 1}[g.Branch]] != r.Block() {
+				continue
+			}
+			decided = true
+			if k, isK := r.Results[0].(*ssa.Const); isK && k.Value != nil && k.Value.String() == "false" {
+				obs = append(obs, ok(R, con, c.InstrPos(r), "e == nil → false"))
+			} else {
+				obs = append(obs, bad(R, con, c.InstrPos(r), "the nil receiver does not answer false: every entry without an explicit config anywhere above it would be read-only"))
+			}
+		}
+	})
+	if !decided {
+		o := ok(R, con, c.Pos(ro.Pos()), "the receiver is not tested against nil here: no nil-receiver case to decide (NIL answers for the recursion)")
+		o.Trivial = true
+		obs = append(obs, o)
+	}
 	return obs
 }
 
